@@ -24,10 +24,24 @@ def load_variants(props=None):
                 if props and v["prop"] not in props:
                     continue
                 out.append(v)
+    # a formatter pass over the whole package (comments, blank lines, line numbers, parentheses change; behaviour does not)
+    for p in sorted(props or ["C%02d" % i for i in range(1, 21)]):
+        out.append(dict(id="formatter-pass", prop=p, kind="twin", transform="unparse"))
     return out
 
 
 def apply_edit(root, v):
+    if v.get("transform") == "unparse":
+        import ast
+        for dirpath, _, files in os.walk(os.path.join(root, "eqsig")):
+            for fn in files:
+                if fn.endswith(".py"):
+                    p = os.path.join(dirpath, fn)
+                    with open(p, encoding="utf-8") as f:
+                        src = f.read()
+                    with open(p, "w", encoding="utf-8") as f:
+                        f.write(ast.unparse(ast.parse(src)) + "\n")
+        return None
     edits = v.get("edits") or [(v["file"], v["old"], v["new"])]
     for file, old, new in edits:
         p = os.path.join(root, file)
